@@ -7,6 +7,8 @@ import Driver.Ops.Paths
 import Driver.Ops.Text
 import Driver.Ops.Zc
 import Driver.Ops.Align
+import Driver.Ops.Z64
+import Driver.Ops.Layers
 /- Dispatch table: op-name prefix → handler (model evaluation → canonical response line).
    One file per stream under `Driver/Ops/`; register it here. -/
 
@@ -18,9 +20,11 @@ def handlers : List (String × (String → Args → Option String)) :=
     ("write.", opWrite),
     ("clones.", opClones),
     ("paths.", opPaths),
+    ("z64.", opZ64),
     ("text.", opText),
     ("zc.", opZc),
-    ("align.", opAlign) ]
+    ("align.", opAlign),
+    ("layers.", opLayers) ]
 
 def dispatch (op : String) (a : Args) : String :=
   match handlers.find? (fun h => op.startsWith h.1) with
